@@ -2,8 +2,8 @@ from common import LEAN_TB
 
 CHECK = {
     "title": "apko's own text formats round-trip",
-    "modules": ["Apko.Proofs.C16"],
-    "suites": [("formats", 8000, 300000)],
+    "modules": ["Apko.Proofs.Lemmas.Formats", "Apko.Proofs.Lemmas.FormatsFold", "Apko.Proofs.Lemmas.FormatsIndex", "Apko.Proofs.C16"],
+    "suites": [("formats", 6000, 300000)],
     "budget_quick": 100,
     "fact_prefixes": ["apkindex.go", "package.go", "installed.go", "passwd.go", "group.go", "common.go"],
     "hashes": {},
@@ -17,5 +17,5 @@ CHECK = {
     "assumptions": ["encoding/base64.StdEncoding.DecodeString inverts EncodeToString and the encoding contains no line terminator",
                     "sub-second parts of BuildTime are outside the model (the formats carry whole seconds); BuildDate is a mirror of BuildTime set by the readers",
                     "replaces is not an APKINDEX field (apk-tools writes r: only to the installed db): the index theorems are stated on the projection that drops it"],
-    "text": "placeholder",
+    "text": "Machine-checked for every lawful base64 codec and every list of well-formed packages (fields free of LF/CR, list items non-empty and free of space, integers in range, lines within the scanner limit): index_read_write (ParsePackageIndex of what ArchiveFromIndex wrote returns every field the format carries) and index_write_read (re-writing reproduces the bytes), via the generic parseIndex_render for ANY writer/reader table pair satisfying the decidable tableOK; field_inverse_index / field_inverse_idb_partial / field_inverse_idb_fails are decided over the tables regenerated from the template, PackageToInstalled and the two switch statements. Partial: the installed-db whole-file theorems, the file-record codec (F:/M:/R:/a:/Z:, sortTarHeaders), passwd and group round trips are modelled (Impl + Spec, executed by the driver) and exercised by corr:formats but not yet proved; recorded defects F16a-idb, F16c, F16d, F16e, F16f, F16h have Lean witnesses or driver class predicates and replayed corpus witnesses; F15a, F16a-index, F16b, F16g were repaired (fix: commits).",
 }
